@@ -10,6 +10,7 @@ import (
 	"github.com/elnosh/gonuts/cashu"
 	"github.com/decred/dcrd/dcrec/secp256k1/v4"
 	"github.com/elnosh/gonuts/cashu/nuts/nut05"
+	"github.com/elnosh/gonuts/cashu/nuts/nut11"
 	"github.com/elnosh/gonuts/cashu/nuts/nut12"
 	"github.com/elnosh/gonuts/wallet"
 	wstorage "github.com/elnosh/gonuts/wallet/storage"
@@ -34,6 +35,7 @@ type Op struct {
 	Fee    uint     `json:"fee,omitempty"`
 	V3     bool     `json:"v3,omitempty"`
 	NoDleq bool     `json:"nodleq,omitempty"`
+	SigAll bool     `json:"sigall,omitempty"` // sendlocked: lock with the SIG_ALL flag
 	// crash: run Victim and kill the wallet process before its K-th storage write / HTTP call / HTTP reply (K = 0: only count them)
 	Victim *Op `json:"victim,omitempty"`
 	K      int `json:"k,omitempty"`
@@ -273,7 +275,12 @@ func (ww *WW) Exec(op Op) *Event {
 			} else {
 				to := ww.Wallets[op.To]
 				locked = "p2pk:" + op.To
-				proofs, e = ws.W.SendToPubkey(op.Amt, ms.URL, to.W.GetReceivePubkey(), nil, op.Fees)
+				var tags *nut11.P2PKTags
+				if op.SigAll {
+					tags = &nut11.P2PKTags{Sigflag: nut11.SIGALL}
+					locked += ":sigall"
+				}
+				proofs, e = ws.W.SendToPubkey(op.Amt, ms.URL, to.W.GetReceivePubkey(), tags, op.Fees)
 			}
 			return e
 		})
@@ -291,13 +298,13 @@ func (ww *WW) Exec(op Op) *Event {
 			}
 			r["tok"], r["value"], r["n"], r["tokfee"], r["distinct"] = t.ID, sum(proofs), len(proofs), ww.feeOf(op.M, proofs), distinct
 		}
-		return ww.emit(op.Op, map[string]any{"w": op.W, "m": op.M, "amt": int(op.Amt), "fees": op.Fees, "to": op.To}, r)
+		return ww.emit(op.Op, map[string]any{"w": op.W, "m": op.M, "amt": int(op.Amt), "fees": op.Fees, "to": op.To, "sigall": op.SigAll}, r)
 
 	case "receive":
 		t := ww.Tokens[op.Tok]
 		var got uint64
 		if t == nil || t.Taken {
-			return ww.emit("receive", map[string]any{"w": op.W, "tok": op.Tok, "swap": op.Swap, "tokmint": "", "value": 0, "tokfee": 0, "locked": ""},
+			return ww.emit("receive", map[string]any{"w": op.W, "tok": op.Tok, "swap": op.Swap, "tokmint": "", "value": 0, "tokfee": 0, "locked": "", "lockclass": "plain", "default": ""},
 				map[string]any{"ok": false, "panic": false, "detail": "no such token", "amount": 0, "skipped": true})
 		}
 		err, pan, msg := ww.guard(func() error {
@@ -311,8 +318,15 @@ func (ww *WW) Exec(op Op) *Event {
 		if err == nil && !pan {
 			t.Taken = true
 		}
+		lockclass := "plain"
+		if strings.HasPrefix(t.Locked, "p2pk") {
+			lockclass = "p2pk"
+			if strings.HasSuffix(t.Locked, ":sigall") {
+				lockclass = "p2pk-sigall"
+			}
+		}
 		return ww.emit("receive", map[string]any{"w": op.W, "tok": op.Tok, "swap": op.Swap, "tokmint": t.Mint, "value": sum(t.Proofs),
-			"tokfee": ww.feeOf(t.Mint, t.Proofs), "locked": t.Locked, "default": ws.Default}, r)
+			"tokfee": ww.feeOf(t.Mint, t.Proofs), "locked": t.Locked, "lockclass": lockclass, "default": ws.Default}, r)
 
 	case "melt":
 		ms := ww.Mints[op.M]
